@@ -284,4 +284,63 @@ example : ((PSys.mk wMarket [wPos]).step 64 (10 ^ 9) wPerp (.dec 0 (10 * 10 ^ 9)
 example : Inv ⟨wMarket, [wPos]⟩ :=
   ⟨fun il cl => by cases il <;> cases cl <;> rfl, fun p hp => by simp at hp; subst hp; simp [wPos]⟩
 
+/-! #### audit additions: witnesses for the remaining hypotheses -/
+/-- `sumKey_set`: replacing the only position of key (long, short-token collateral) by a smaller one. -/
+example : sumKey (·.sizeUsd) true false ([wPos].set 0 { wPos with sizeUsd := 7 }) + 20 * 10 ^ 9
+    = sumKey (·.sizeUsd) true false [wPos] + 7 := by
+  simpa [wPos] using sumKey_set (·.sizeUsd) true false [wPos] 0 wPos { wPos with sizeUsd := 7 } rfl rfl rfl
+/-- `removed_is_empty` (second branch), `oi_updated_by_executed_delta`, `partial_close_keeps_both_positive`
+(right disjunct): a successful PARTIAL decrease of `wPos` (whose sizes are both non-zero, so `hp` holds):
+`(removed, executed delta, delta tokens, remaining size, tokens, collateral, book of the key after)`. -/
+example : (match decrease 64 (10 ^ 9) wMarket wPerp wPrices wPos (10 * 10 ^ 9) 1799000000 {} with
+  | .ok (m', p', r) => some (r.shouldRemove, [r.sizeDelta, r.sizeDeltaTokens, p'.sizeUsd, p'.sizeTokens, p'.collateral], bk m' true false)
+  | .error _ => none)
+  = some (false, [10000000000, 100000000, 10000000000, 100000000, 901000000], 10000000000, 100000000, 901000000) := by
+  decide +kernel
+/-- `removed_is_empty` (first branch), `removal_realises_whole_pnl`, `promoted_close_realises_whole_pnl`
+(`hfull`): a full close at a PROFIT (index 110, entered at 100): removed, everything zeroed, the whole
+pnl 2·10⁹ realised and reported uncapped. -/
+example : (match decrease 64 (10 ^ 9) wMarket wPerp ⟨⟨110, 110⟩, ⟨110, 110⟩, ⟨1, 1⟩⟩ wPos (20 * 10 ^ 9) 0 {} with
+  | .ok (m', p', r) => some (r.shouldRemove, [r.sizeDelta, r.sizeDeltaTokens, p'.sizeUsd, p'.sizeTokens, p'.collateral], [r.pnl, r.uncappedPnl],
+      bk m' true false)
+  | .error _ => none) = some (true, [20000000000, 200000000, 0, 0, 0], [2000000000, 2000000000], 0, 0, 0) := by decide +kernel
+/-- the PROMOTED close: requesting one unit less than the whole size (which would leave 1 unit of USD
+size and zero tokens) is executed as the full close; and the CAPPED close: requesting 50 USD with the cap
+flag closes the 20 USD. Both satisfy `hfull` of `promoted_close_realises_whole_pnl` with `sd0 ≠ p.sizeUsd`. -/
+example : (match decrease 64 (10 ^ 9) wMarket wPerp wPrices wPos (20 * 10 ^ 9 - 1) 0 {} with
+  | .ok (_, p', r) => some (r.shouldRemove, r.sizeDelta, r.sizeDeltaTokens, p'.sizeUsd, p'.sizeTokens)
+  | .error _ => none) = some (true, 20000000000, 200000000, 0, 0) := by decide +kernel
+example : (match decrease 64 (10 ^ 9) wMarket wPerp wPrices wPos (50 * 10 ^ 9) 0 ⟨false, false, true⟩ with
+  | .ok (_, p', r) => some (r.shouldRemove, r.sizeDelta, r.sizeDeltaTokens, p'.sizeUsd, p'.sizeTokens)
+  | .error _ => none) = some (true, 20000000000, 200000000, 0, 0) := by decide +kernel
+/-- `increase_book`: a successful increase of `wPos` by 5 USD with 1·10⁹ collateral (fee 5·10⁷):
+`(collateral delta, [delta tokens, new size, tokens, collateral], book of the key after)`. -/
+example : (match increase 64 (10 ^ 9) wMarket wPerp wPrices wPos (10 ^ 9) (5 * 10 ^ 9) with
+  | .ok (m', p', r) => some (r.collateralDelta, [r.sizeDeltaTokens, p'.sizeUsd, p'.sizeTokens, p'.collateral], bk m' true false)
+  | .error _ => none) = some (950000000, [50000000, 25000000000, 250000000, 3750000000], 25000000000, 250000000, 3750000000) := by
+  decide +kernel
+/-- `inv_step` / `inv_reachable` on a concrete non-empty history from the EMPTY market: two positions
+opened and increased, a partial and a full decrease, a decrease of a non-existing position and a failing
+increase (both leave the state unchanged): the final positions and the two keys' books. -/
+example : (fun s : PSys => (s.ps.map (fun p => (p.sizeUsd, p.sizeTokens, p.collateral)), bk s.m true false, bk s.m false true))
+    ((PSys.mk { cfg := wCfg, primary := ⟨10 ^ 12, 10 ^ 14⟩ } []).run 64 (10 ^ 9) wPerp
+      [.openPos true false, .inc 0 (3 * 10 ^ 9) (20 * 10 ^ 9) wPrices, .openPos false true,
+       .inc 1 (10 ^ 8) (10 * 10 ^ 9) wPrices, .dec 0 (10 * 10 ^ 9) 0 {} wPrices, .dec 1 (10 * 10 ^ 9) 0 {} wPrices,
+       .dec 5 1 1 {} wPrices, .inc 0 0 (10 ^ 30) wPrices])
+    = ([(10000000000, 100000000, 2700000000), (0, 0, 0)], (10000000000, 100000000, 2700000000), (0, 0, 0)) := by
+  decide +kernel
+/-- the invariant on that reachable state, by the theorem itself. -/
+example : Inv ((PSys.mk { cfg := wCfg, primary := ⟨10 ^ 12, 10 ^ 14⟩ } []).run 64 (10 ^ 9) wPerp
+      [.openPos true false, .inc 0 (3 * 10 ^ 9) (20 * 10 ^ 9) wPrices, .openPos false true,
+       .inc 1 (10 ^ 8) (10 * 10 ^ 9) wPrices, .dec 0 (10 * 10 ^ 9) 0 {} wPrices, .dec 1 (10 * 10 ^ 9) 0 {} wPrices]) :=
+  inv_reachable _ _ _ _ _ (inv_init _ (fun il cl => by cases il <;> cases cl <;> rfl))
+/-- `fee_updates_keep_book`: both updates succeed on `wMarket` one day after their clocks (and move the
+clock, so `m' ≠ m`); the book is kept. -/
+example : (match marketUpdateFunding 64 (10 ^ 9) ({ wMarket with clockFunding := some 0 }.tick 86400)
+      ⟨⟨10 ^ 9, 20, 0, 0, 10, 0, 0, 0⟩, ⟨true, 10 ^ 9, true⟩, ⟨10 ^ 9, 0, 0, 0, 0, 10 ^ 18⟩, ⟨10 ^ 9, 0, 0, 0, 0, 10 ^ 18⟩⟩ wPrices with
+    | .ok m' => some (sameBookB wMarket m', m'.clockFunding) | _ => none) = some (true, some 86400) := by decide +kernel
+example : (match marketUpdateBorrowing 64 (10 ^ 9) ({ wMarket with clockBorrowing := some 0 }.tick 86400)
+      ⟨⟨10 ^ 9, 20, 0, 0, 10, 0, 0, 0⟩, ⟨true, 10 ^ 9, true⟩, ⟨10 ^ 9, 0, 0, 0, 0, 10 ^ 18⟩, ⟨10 ^ 9, 0, 0, 0, 0, 10 ^ 18⟩⟩ wPrices with
+    | .ok m' => some (sameBookB wMarket m', m'.clockBorrowing) | _ => none) = some (true, some 86400) := by decide +kernel
+
 end Gmx.C07
